@@ -32,6 +32,12 @@ type Wiring struct {
 	RogueImpl            reflect.Type
 	DefaultType, AltType string
 	Config               string // configuration name (evidence)
+	// Probe names the probe schema ("" = exec, "shapes")
+	Probe string
+	// MethodTypes: plan-driven model methods ("type.field" normalised -> Go result type)
+	MethodTypes map[string]reflect.Type
+	// MethodNoErr: plan-driven methods that have no error result
+	MethodNoErr map[string]bool
 }
 
 type Resp struct {
@@ -66,6 +72,7 @@ type Shared struct {
 	// resultType: Go result type of each resolver ("type.field" normalised), for deciding
 	// which outcomes a configuration's Go types can express
 	resultType map[string]reflect.Type
+	mapFields  [][2]string
 	es         graphql.ExecutableSchema
 	cur        *Env
 }
@@ -96,7 +103,36 @@ func NewShared(w Wiring) *Shared {
 		}
 		s.resolverOf[typ] = m
 	}
+	for k, t := range w.MethodTypes {
+		s.resultType[k] = t
+		parts := strings.SplitN(k, ".", 2)
+		for name := range s.Schema.Types {
+			if norm(name) == parts[0] {
+				if s.resolverOf[name] == nil {
+					s.resolverOf[name] = map[string]bool{}
+				}
+				s.resolverOf[name][parts[1]] = true
+			}
+		}
+	}
+	if def := s.Schema.Types["MO"]; def != nil {
+		for _, f := range def.Fields {
+			kind := "*string"
+			switch {
+			case !s.leafType(f.Type.NamedType):
+				kind = "object"
+			case f.Type.NonNull:
+				kind = "string"
+			}
+			s.mapFields = append(s.mapFields, [2]string{f.Name, kind})
+		}
+	}
 	return s
+}
+
+func (s *Shared) leafType(name string) bool {
+	d := s.Schema.Types[name]
+	return d == nil || d.Kind == ast.Scalar || d.Kind == ast.Enum
 }
 
 func norm(s string) string { return strings.ToLower(strings.ReplaceAll(s, "_", "")) }
@@ -107,29 +143,43 @@ func (s *Shared) IsResolver(typ, field string) bool { return s.resolverOf[typ][n
 // position p (a value-typed result or element cannot be nil; the pointer / omit options
 // change which positions are nilable).
 func (s *Shared) Feasible(p Position, alt string) bool {
-	if alt != "null" || p.Object == "" {
+	if p.Object == "" {
 		return true
 	}
 	parts := strings.SplitN(p.Object, ".", 2)
 	if len(parts) != 2 {
 		return true
 	}
+	if (alt == "error" || alt == "errval") && p.Kind == "resolver" && s.W.MethodNoErr[norm(parts[0])+"."+norm(parts[1])] {
+		return false
+	}
+	if alt != "null" && alt != "alt" {
+		return true
+	}
 	rt, ok := s.resultType[norm(parts[0])+"."+norm(parts[1])]
 	if !ok {
 		return true
+	}
+	if p.Kind == "element" {
+		for rt.Kind() == reflect.Ptr {
+			rt = rt.Elem()
+		}
+		for d := 0; d < max(p.Depth, 1); d++ {
+			if rt.Kind() != reflect.Slice {
+				return true
+			}
+			rt = rt.Elem()
+		}
+	}
+	if alt == "alt" {
+		// the alternative concrete type must implement the Go interface of the position
+		return rt.Kind() != reflect.Interface || s.W.AltImpl.Implements(rt)
 	}
 	switch p.Kind {
 	case "resolver":
 		return nilable(rt)
 	case "element":
-		for rt.Kind() == reflect.Ptr {
-			rt = rt.Elem()
-		}
-		if rt.Kind() != reflect.Slice {
-			return true
-		}
-		et := rt.Elem()
-		return nilable(et) || et == reflect.TypeOf(time.Time{})
+		return nilable(rt) || rt == reflect.TypeOf(time.Time{})
 	}
 	return true
 }
@@ -176,7 +226,7 @@ func (s *Shared) NewInst(c Case, doc *ast.QueryDocument) *Inst {
 
 func (in *Inst) Body() {
 	s := in.S
-	in.Env = &Env{Plan: in.C.Plan, DefaultImpl: s.W.DefaultImpl, AltImpl: s.W.AltImpl, RogueImpl: s.W.RogueImpl, Yield: in.C.Yield, HonourCancel: in.C.Cancel && !in.C.IgnoreCancel, Intercept: in.C.Intercept}
+	in.Env = &Env{Plan: in.C.Plan, DefaultImpl: s.W.DefaultImpl, AltImpl: s.W.AltImpl, RogueImpl: s.W.RogueImpl, Yield: in.C.Yield, HonourCancel: in.C.Cancel && !in.C.IgnoreCancel, Intercept: in.C.Intercept, MapFields: s.mapFields}
 	s.cur = in.Env
 	ctx := context.Background()
 	if in.C.Cancel {
